@@ -566,6 +566,38 @@ func (g *Gen) RandType(depth int) reflect.Type {
 	}
 }
 
+// untaggedIdent returns the universal tag number an untagged member of type t starts with
+// (through "Value"/"List" wrappers), or 0 when the member is not to be left untagged here.
+func untaggedIdent(t reflect.Type) int {
+	switch Classify(t) {
+	case KBool:
+		return asn.TagBoolean
+	case KInt:
+		return asn.TagInteger
+	case KBits:
+		return asn.TagBitString
+	case KOctets:
+		return asn.TagOctetString
+	case KNull:
+		return asn.TagNull
+	case KEnum:
+		return asn.TagEnumerated
+	case KString:
+		switch t {
+		case asn.UTF8StringType:
+			return asn.TagUTF8String
+		case asn.IA5StringType:
+			return asn.TagIA5String
+		}
+		return 0
+	case KSeq, KSlice:
+		return asn.TagSequence
+	case KWrap:
+		return untaggedIdent(t.Field(0).Type)
+	}
+	return 0
+}
+
 func (g *Gen) randStruct(depth int, kind string) reflect.Type {
 	n := 1 + g.R.Intn(4)
 	var fs []reflect.StructField
@@ -584,10 +616,18 @@ func (g *Gen) randStruct(depth int, kind string) reflect.Type {
 	if g.R.Intn(2) == 0 {
 		sort.Slice(tags, func(i, j int) bool { return tags[i] < tags[j] })
 	}
+	usedUniv := map[int]bool{}
 	for i := 0; i < n; i++ {
 		ft := g.RandType(depth - 1)
 		tag := fmt.Sprintf("tagNum:%d", tags[i])
 		k := Classify(ft)
+		// a member declared without a context tag (matched by the universal identifier of its type), as long
+		// as no other untagged member of this structure has the same one
+		if u := untaggedIdent(ft); u != 0 && !usedUniv[u] && g.R.Intn(4) == 0 {
+			usedUniv[u] = true
+			tag = "untagged"
+			g.Stats["member:untagged"]++
+		}
 		if kind == "choice" {
 			ft = reflect.PtrTo(ft)
 		} else {
@@ -600,16 +640,17 @@ func (g *Gen) randStruct(depth int, kind string) reflect.Type {
 				ft = reflect.PtrTo(ft)
 			}
 		}
-		if k == KSeq && g.R.Intn(3) == 0 {
+		if k == KSeq && g.R.Intn(3) == 0 && tag != "untagged" {
 			tag += ",set"
 		}
 		if g.Explicit && kind != "choice" && k != KChoice && g.R.Intn(3) == 0 {
 			tag += ",explicit"
 		}
-		if k == KString {
+		if k == KString && tag != "untagged" {
 			// strings need a string type when their universal tag is visible
 			tag += []string{",utf8", ",ia5", ",graphic"}[g.R.Intn(3)]
 		}
+		tag = strings.TrimPrefix(strings.TrimPrefix(tag, "untagged,"), "untagged")
 		// a name starting with an upper-case letter other than Value/List/Present
 		fs = append(fs, reflect.StructField{Name: fmt.Sprintf("F%d", i), Type: ft, Tag: reflect.StructTag(`ber:"` + tag + `"`)})
 	}
